@@ -530,3 +530,119 @@ Print Assumptions serialize_source_fault.
 Print Assumptions serialize_done.
 Print Assumptions ser_outcome_first_failure.
 Print Assumptions flush_after_a_source_error_blames_the_sink.
+
+(* ================= iterators as sources, the methods of the Iterator trait, reused serializers
+   (round 6) ================= *)
+From Sophia.C15 Require Import IterSource IterProofs Reuse ReuseProofs.
+
+(* chains compose *)
+Check (through_app : forall c1 c2 x,
+  through (c1 ++ c2) x = match through c1 x with Some y => through c2 y | None => None end).
+Check (fm_app_chain : forall c1 c2 l, fm (c1 ++ c2) l = fm c2 (fm c1 l)).
+(* the iterator of map_*(..).into_iter() / filter_map_*(..).into_iter(), unfolded with next(), is
+   the list of all the results of the source under the chain: nothing but next() ends it (no size
+   hint occurs) *)
+Check (iter_source_all_out : forall chain src, iter_source chain src = of_results (all_out chain src)).
+(* the blanket impl on the iterator state is the source of its results *)
+Check (iter_lazy_is_eager : forall St chain (g : sink St) fuel src buf st,
+  (length (buf ++ all_out chain src) < fuel)%nat ->
+  ires3 (iter_try_for_each St fuel chain (src, buf) g st)
+  = res3 (try_for_each St (of_results (buf ++ all_out chain src)) [] g st)).
+(* source -> adapters -> into_iter() -> Source API again: the consumer sees what it would see
+   behind the flat chain, and the same outcome, for any source (several items per step, failing
+   steps), any consumer, any fault *)
+Check (iter_source_flat : forall St c1 c2 (f : sink St) src st,
+  res3 (try_for_each St (iter_source c1 src) c2 f st) = res3 (try_for_each St src (c1 ++ c2) f st)).
+(* ... nested any number of times *)
+Check (nest_flat : forall St last (f : sink St) segs src st,
+  res3 (try_for_each St (nest segs src) last f st) = res3 (try_for_each St src (concat segs ++ last) f st)).
+Check (nested_all_out : forall c1 c2 src, all_out c2 (iter_source c1 src) = all_out (c1 ++ c2) src).
+Check (nest_all_out : forall last segs src,
+  all_out last (nest segs src) = all_out (concat segs ++ last) src).
+(* when nothing fails, everything arrives *)
+Check (iterator_source_delivers_all : forall chain fault src,
+  (forall stp, In stp src -> snd stp = None) ->
+  not_reached fault (length (fm chain (flat_map fst src))) ->
+  res3 (try_for_each _ (iter_source chain src) [] (rec_sink fault) [])
+  = (fm chain (flat_map fst src), Done)).
+(* one next(): the head of (pending buffer ++ what the source still produces) *)
+Check (iter_next_spec : forall chain src buf,
+  let r := iter_next chain (src, buf) in
+  fst r = hd_error (buf ++ all_out chain src)
+  /\ snd (snd r) ++ all_out chain (fst (snd r)) = tl (buf ++ all_out chain src)).
+(* k manual next() calls, stopping anywhere inside a multi-item step: the rest (pending items
+   included) is still there for whatever drains the iterator afterwards *)
+Check (nexts_then_drain : forall chain k src buf,
+  let L := buf ++ all_out chain src in
+  let '(f, (src', buf')) := nexts k chain (src, buf) in
+  f = firstn k L /\ buf' ++ all_out chain src' = skipn k L).
+Check (drain_after_nexts : forall chain k src fuel,
+  let '(f, it') := nexts k chain (src, []) in
+  (length (all_out chain src) < fuel)%nat ->
+  f = firstn k (all_out chain src) /\ drain fuel chain it' = skipn k (all_out chain src)).
+(* every method (all / count / last / nth / sum) after k next() calls shows what it shows of the
+   tail of the flat stream *)
+Check (iter_meth_spec : forall src segs chain k m,
+  iter_meth src segs chain k m
+  = let full := all_out (concat (map (map adapter_of) segs) ++ map adapter_of chain) src in
+    (firstn k full, meth_obs m (skipn k full))).
+(* a reused serializer: every call is the call of a fresh serializer on a fresh writer *)
+Check (ser_rounds_fresh : forall rounds w,
+  ser_rounds w rounds = map (fun r => run_ser (fst r) (snd r)) rounds).
+Check (ser_rounds_no_stale_bytes : forall rounds w,
+  Forall2 (fun r (o : round_obs) =>
+             let '(bytes, _, after, oe) := o in
+             match oe with
+             | None => bytes = nq_write (fst r)
+             | Some _ =>
+                 exists done q rest k,
+                   fst r = done ++ q :: rest /\ (k < length (nq_write_quad q))%nat
+                   /\ bytes = nq_write done ++ firstn k (nq_write_quad q)
+             end /\ after = O)
+          rounds (ser_rounds w rounds)).
+
+(* non-vacuity: 4 items delivered 2 by 2, turned into an iterator and consumed through the Source
+   API again; one next() in the middle of a 3-item step, then count / last / everything; a
+   serializer whose first call fails inside the second statement and whose second call succeeds *)
+Example ex_nested_two_by_two :
+  run_nested [([1; 2], None); ([3; 4], None)] [[DMapSucc]; [DFilterAll]] [DMapDouble] None
+  = ([4; 6; 8; 10], KDone).
+Proof. vm_compute. reflexivity. Qed.
+Example ex_nested_fault :
+  run_nested [([1; 2], None); ([3; 4], Some 9); ([5], None)] [[DMapSucc]] [] (Some (4%nat, 77))
+  = ([2; 3; 4; 5], KSource 9).
+Proof. vm_compute. reflexivity. Qed.
+Example ex_next_then_count :
+  iter_meth [([1; 2; 3], None); ([4], None); ([5; 6], Some 8)] [] [DMapSucc] 1 ICount
+  = ([inl 2], [inl 6]).
+Proof. vm_compute. reflexivity. Qed.
+Example ex_next_then_last :
+  iter_meth [([1; 2; 3], None); ([4], None); ([5; 6], None)] [] [DFilterAll] 1 ILast
+  = ([inl 1], [inl 6]).
+Proof. vm_compute. reflexivity. Qed.
+Example ex_next_then_all :
+  iter_meth [([1; 2; 3], None); ([4], None)] [[DFilterAll]] [DFilterAll] 2 IAll
+  = ([inl 1; inl 2], [inl 3; inl 4]).
+Proof. vm_compute. reflexivity. Qed.
+Example ex_reuse :
+  let t s := (Iri s, Iri [112], Iri [111], @None term) in
+  ser_rounds w0 [([t [97]; t [98]; t [99]], WAtomic 14 5); ([t [100]], WAtomic 100 6)]
+  = [(nq_write [t [97]] ++ firstn 1 (nq_write [t [98]]), 14%nat, O, Some (EDev 5));
+     (nq_write [t [100]], 12%nat, O, None)].
+Proof. vm_compute. reflexivity. Qed.
+
+Print Assumptions through_app.
+Print Assumptions fm_app_chain.
+Print Assumptions iter_source_all_out.
+Print Assumptions iter_lazy_is_eager.
+Print Assumptions iter_source_flat.
+Print Assumptions nest_flat.
+Print Assumptions nested_all_out.
+Print Assumptions nest_all_out.
+Print Assumptions iterator_source_delivers_all.
+Print Assumptions iter_next_spec.
+Print Assumptions nexts_then_drain.
+Print Assumptions drain_after_nexts.
+Print Assumptions iter_meth_spec.
+Print Assumptions ser_rounds_fresh.
+Print Assumptions ser_rounds_no_stale_bytes.
